@@ -56,6 +56,8 @@ def cases(tier, seed):
         out.append(dict(kind='meta', cfg=cfg))
         out.append(dict(kind='native', cfg=cfg, dtype='float64'))
         out.append(dict(kind='native', cfg=cfg, dtype='int64'))
+        out.append(dict(kind='native', cfg=cfg, dtype='float32'))
+        out.append(dict(kind='native', cfg=cfg, dtype='int8'))
         out.append(dict(kind='layouts', cfg=cfg))
     for i in range(60 if tier == 'quick' else 3000):
         out.append(dict(kind='drag', cfg=rng.choice(cfgs[:4] + [dict(p=3, r=1), dict(p=3)]), sseed=rng.randrange(10 ** 9),
@@ -208,7 +210,13 @@ def _run_scene(desc, V):
     subjects = [_mk_tree(alg, V, rng, desc['depth'], counter) for _ in range(rng.randint(1, 4))]
     subjects.insert(rng.randrange(len(subjects) + 1), 0x00AA88)
     cam = _mk_mv(alg, V, rng, 'cam', layout=rng.choice(['sparse', 'dense-canonical', 'permuted']))
-    g = alg.graph(*subjects, camera=cam, grid=1)
+    wrap = rng.choice([None, None, 'tuple', 'list'])
+    if wrap:
+        # exactly ONE subject: a zero-argument function returning all subjects (ganja's animation idiom)
+        seq = tuple(subjects) if wrap == 'tuple' else list(subjects)
+        g = alg.graph(lambda: seq, camera=cam, grid=1)
+    else:
+        g = alg.graph(*subjects, camera=cam, grid=1)
     k2i = dict(g.key2idx)
     claims = _cmp_leaves('subjects', leaves(decode(g.subjects, k2i)), expected_leaves(subjects, alg), 'scene|subjects')
     claims += _cmp_leaves('camera', leaves(decode(g.options['camera'], k2i)), expected_leaves(cam, alg), 'scene|camera')
